@@ -358,8 +358,8 @@ def prim_classes(kind, p, value):
             rng = ub - lb + 1
             inroot = lb <= v <= ub
             if rng > 65536 and inroot:
-                if d2_bad(rng): out.append('int-range-lol')                 # D2
-                if lb != 0: out.append('int-big-range-lb-nonzero')          # D3
+                if lb != 0: out.append('int-big-range-lb-nonzero')          # D3 (no NGAP instance)
+                # D2 (length-of-length width, RepetitionPeriod) was repaired by fix 8116821
             if ext and v < lb: out.append('ext-below-root')                 # D7
         elif lb is not None:
             if v >= lb: out.append('int-semi-constrained')                  # D4
@@ -371,15 +371,32 @@ def prim_classes(kind, p, value):
         if (lb is None) != (ub is None): out.append('partial-bounds')       # D8
         if lb is None and ub is None and ext: out.append('partial-bounds')
         if ext and lb is not None and ub is not None and n < lb: out.append('ext-below-root')   # D7
-        if kind == 'bits' and lb is not None and ub is not None and lb == ub and ub < 65536 and n != ub and n <= 16 and not (ext and n > ub):
-            out.append('bitstring-fixed-wrong-length')                      # D6
+        # D6 (fixed-size BIT STRING of the wrong length not refused) was repaired by fix b7bd054
         if n >= 16384: out.append('fragmented')
         if kind == 'seqof' and n >= 128 and (ub is None or ub >= 65536 or (ext and n > ub)):
             out.append('seqof-count-one-octet')                             # D5 (count & 0xff)
         if lb == 0 and ub == 0 and n == 0 and kind != 'seqof': out.append('string-size-fixed-0')  # D9
     elif kind == 'choice':
         if p['valueUB'] == 0: out.append('choice-single-alternative')
+    elif kind == 'enum':
+        if p['valueLB'] is None or p['valueUB'] is None: out.append('enum-without-bounds')
     return out
+
+
+# classes with an instance in the NGAP schema are known findings; the others are outside the quantifier of C03/C04
+# (exercised for model == implementation only) and merely counted in the evidence
+NGAP_CLASSES = ['size-ub>=65536', 'ext-below-root', 'fragmented']
+OUTSIDE_CLASSES = ['int-big-range-lb-nonzero', 'int-semi-constrained', 'partial-bounds', 'string-size-fixed-0',
+                   'choice-single-alternative', 'seqof-count-one-octet']
+
+
+def class_key(pid, classes):
+    """finding key of a failing case: a class with an NGAP instance if it is in one, else 'outside:<class>', else None"""
+    for c in classes:
+        if c in OUTSIDE_CLASSES: return "outside:" + c
+    for c in classes:
+        if c in NGAP_CLASSES: return pid + ":" + c
+    return None
 
 
 class Classifier:
@@ -392,6 +409,8 @@ class Classifier:
             if v is not None: self.walk(t['elem'], p, v, out)
         elif k == 'int':
             out.update(prim_classes('int', p, int(v)))
+        elif k == 'enum':
+            out.update(prim_classes('enum', p, int(v)))
         elif k == 'bitstring':
             out.update(prim_classes('bits', p, int(v['nbits'])))
         elif k in ('octetstring', 'string'):
@@ -442,8 +461,6 @@ class Gen:
             for d in (255, 256, 65535, 65536, 2**24, 2**32):
                 if lb + d <= ub: c.append(lb + d)
             x = R.choice(c)
-            if ub - lb + 1 > 65536 and d2_bad(ub - lb + 1) and not R.chance(1, 8):
-                x = lb + R.range(0, min(255, ub - lb))      # keep most values out of the known D2 defect
             if p['valueExt'] and self.wild('int-above-root'): x = ub + R.choice([1, 2, 256, 70000])
             elif self.wild('int-outside'): x = R.choice([ub + 1, lb - 1, ub + 300])
             return str(x)
@@ -634,7 +651,7 @@ class AperCheck(Check):
         self.cov["streams"][st.name] = info
         info2 = dict(info)
         info2["spec_bad"] = info["spec_bad"] - info["known"]
-        info2["model_bad"] = len([i for i in bad_model if not (st.known(cases[i], obs[i]) and self.is_known(st.known(cases[i], obs[i])))])
+        info2["model_bad"] = len([i for i in bad_model if not (st.known(cases[i], obs[i]) and (st.known(cases[i], obs[i]).startswith("outside:") or self.is_known(st.known(cases[i], obs[i]))))])
         return info2
 
     def findings(self):
@@ -650,6 +667,10 @@ class AperCheck(Check):
     def report(self, st, c, o, why, expected, write):
         """True when this is a violation (not a listed known finding)"""
         k = st.known(c, o)
+        if k is not None and k.startswith("outside:"):
+            d = self.cov.setdefault("outside_ngap_classes", {})
+            d[k[8:]] = d.get(k[8:], 0) + 1
+            return False
         if k is not None and self.is_known(k):
             self.known_finding(k, next(f["what"] for f in self.findings() if f.get("key") == k and f.get("property") == self.pid))
             return False
